@@ -11,6 +11,11 @@ for d in sorted(glob.glob("/verif/seeded/*")):
     caught = [l.split()[1].split("=")[1] for l in res.splitlines() if l.startswith("VIOLATION")]
     nofound = any("no-failing-input-found" in l for l in res.splitlines())
     ran = [l.split()[0] for l in res.splitlines() if " tier=" in l]
+    harmless = m.get("kind") == "harmless"
+    if harmless:
+        status = ("FALSE ALARM from " + ",".join(sorted(set(caught)))) if caught else ("quiet (as required)" if ran else "not run yet")
+        rows.append("| %s | (harmless rewrite) %s | %s | %s |" % (name, (m.get("what_changed") or "")[:150].replace("|", "/").replace("\n", " "), "-", status))
+        continue
     status = ("caught by " + ",".join(sorted(set(caught))) + (" (no-failing-input-found)" if nofound else "")) if caught else ("MISSED (ran %s)" % ",".join(ran) if ran else "not run yet")
     rows.append("| %s | %s | %s | %s |" % (name, (m.get("clause_broken") or "")[:110].replace("|", "/").replace("\n", " "),
                                          (m.get("what_it_needs_to_manifest") or "")[:150].replace("|", "/").replace("\n", " "), status))
